@@ -20,7 +20,10 @@ with warnings.catch_warnings():
     warnings.simplefilter("ignore")
     for c in cases:
         try:
-            Ad, fd = G.call_impl(core, c)
+            if c.get("present"):      # another spelling of the ordinals / keyword arguments / array layout of the same values
+                Ad, fd = G.call_presented(core, c, *c["present"])
+            else:
+                Ad, fd = G.call_impl(core, c)
             out.append(("OK", np.asarray(Ad, dtype=float), np.asarray(fd, dtype=float)))
         except Exception as e:  # noqa: BLE001
             out.append(("ERR", common.exc_code(e), str(e)))
